@@ -195,6 +195,17 @@ int EGLPNUM_TYPENAME_ILLbasis_load (
 				rval = 1;
 				goto CLEANUP;
 			}
+			/* the bounds may have been changed since the basis was stored: a
+			 * non-basic variable can only sit at a bound that exists, and only a
+			 * variable without bounds is non-basic at zero */
+			{
+				int has_lo = EGLPNUM_TYPENAME_EGlpNumIsNeqq (lp->O->lower[j], EGLPNUM_TYPENAME_NINFTY);
+				int has_up = EGLPNUM_TYPENAME_EGlpNumIsNeqq (lp->O->upper[j], EGLPNUM_TYPENAME_INFTY);
+				if ((lp->vstat[j] == STAT_LOWER && !has_lo) ||
+						(lp->vstat[j] == STAT_UPPER && !has_up) ||
+						(lp->vstat[j] == STAT_ZERO && (has_lo || has_up)))
+					lp->vstat[j] = has_lo ? STAT_LOWER : (has_up ? STAT_UPPER : STAT_ZERO);
+			}
 		}
 	}
 
